@@ -47,6 +47,28 @@ def decodeFrame (d : Nat) : PyVal → Option (Frame PyVal × List PyVal)
     pure (Impl.initLazy d ts (some m.toNat) rel, chunkRows ts (some m.toNat))
   | _ => none
 
+def decodeDeriv : String → Option Deriv
+  | "slice" => some .slice
+  | "head" => some .head
+  | "tail" => some .tail
+  | "query" => some .query
+  | "distinct" => some .distinct
+  | "add" => some .add
+  | "batches" => some .batches
+  | _ => none
+
+/-- `["on", i, op]`, `["derive", i, how, rows]`, `["derive-lazy", i, tables]` -/
+def decodeSysOp : PyVal → Option (SysOp PyVal)
+  | .list [.str "on", .int i, op] => if i ≥ 0 then (decodeOp op).map (SysOp.on i.toNat) else none
+  | .list [.str "derive", .int i, .str how, .list rows] =>
+    if i ≥ 0 then (decodeDeriv how).map (fun h => SysOp.derive i.toNat h rows) else none
+  | .list [.str "derive-lazy", .int i, .list tables] =>
+    if i ≥ 0 then (decodeTables tables).map (SysOp.deriveLazy i.toNat) else none
+  | _ => none
+
+def allOwn : Bool :=
+  [Deriv.slice, .head, .tail, .query, .distinct, .add, .batches].all Deriv.owns
+
 def handle (op : String) (args : List PyVal) : Option (List PyVal) :=
   match op, args with
   | "run", [.int d, .list rows, .list ops] => do
@@ -64,6 +86,15 @@ def handle (op : String) (args : List PyVal) : Option (List PyVal) :=
       | some rs => PyVal.list rs
       | none => PyVal.none
     pure [.list (outs.map encodeOut), store, .bool f.live, .list (souts.map encodeOut), .list s.rows, .list rows]
+  | "system", [.int d, frame, .list ops] => do
+    if d < 0 then none
+    let ops ← ops.mapM decodeSysOp
+    let (f0, _) ← decodeFrame d.toNat frame
+    let (s, outs) := Sys.run (Sys.init d.toNat f0) ops
+    let stores := s.frames.map (fun f => match Impl.store f with
+      | some rs => PyVal.list rs
+      | none => PyVal.none)
+    pure [.list (outs.map encodeOut), .list stores, .list (s.frames.map (fun f => PyVal.bool f.live)), .bool allOwn]
   | _, _ => none
 
 end Drv.C04
